@@ -361,6 +361,7 @@ class SafeLearner(Learner):
                 pred = list(pred.values())[0]
 
             if self._pred_format[:2] == 'PM':
+                if not self._pred_format.endswith('*'): pred = list(zip(*pred)) #one column per action to one pmf per row
                 A, P = list(map(list, zip(*map(self._rng.choicew,actions, pred))))
 
             if self._pred_format[:2] == 'AX':
